@@ -286,6 +286,7 @@ void *__wrap_malloc(size_t n)
 		errno = ENOMEM;
 	else if ((p = __real_malloc(n)))
 	{
+		memset(p, g_alloc.junk, n);
 		live_add(p, n);
 		THR_ALLOC(p, n);
 	}
@@ -338,6 +339,7 @@ void *__wrap_realloc(void *old, size_t n)
 	else
 	{
 		bool was_live = old && g_alloc.live.count(old);
+		size_t old_size = was_live ? g_alloc.live[old].size : (old ? n : 0);
 #ifdef JSIM_THR
 		if (simthr_active() && old)
 		{
@@ -356,6 +358,8 @@ void *__wrap_realloc(void *old, size_t n)
 		p = __real_realloc(old, n);
 		if (p)
 		{
+			if (n > old_size)
+				memset((char *)p + old_size, g_alloc.junk, n - old_size);
 			if (was_live)
 				live_del(old);
 			if (was_live || !old)
